@@ -33,13 +33,15 @@ inductive Cmd where
   | alt (a b : Cmd)           -- if / switch / select: either branch
   | loop (a : Cmd)            -- for / range: any number of iterations
   | ret                       -- return / panic
-  | brk                       -- break out of the innermost loop
-  | cnt                       -- continue with the next iteration
+  | block (a : Cmd)           -- a jump target: `jump 0` inside ends this block normally
+  | jump (n : Nat)            -- break / continue / labelled break: leave the n+1 innermost enclosing blocks
+                              --   (for-loop = block (loop (block body)): break = jump 1, continue = jump 0;
+                              --    switch/select = block (alt arms): break = jump 0)
   | spawn (a : Cmd)           -- `go`, deferred or stored closure: runs with no lock of ours assumed
 deriving Repr, Inhabited
 
 inductive Out where
-  | normal | returned | broke | continued
+  | normal | returned | exit (n : Nat)
 deriving DecidableEq, Repr
 
 /-! ## locksets -/
@@ -66,6 +68,7 @@ def dfrs : Cmd → List Mutex
   | .seq a b => dfrs a ++ dfrs b
   | .alt a b => dfrs a ++ dfrs b
   | .loop a => dfrs a
+  | .block a => dfrs a
   | _ => []
 
 /-- `Run env c h obs h' t`: executing `c` with the locks `h` held performs the accesses `obs` (site, locks held
@@ -77,17 +80,19 @@ inductive Run (env : List Cmd) : Cmd → LS → List (Nat × LS) → LS → Out 
   | dfr {m h} : Run env (.dfr m) h [] h .normal
   | acc {k h} : Run env (.acc k) h [(k, h)] h .normal
   | ret {h} : Run env .ret h [] h .returned
-  | brk {h} : Run env .brk h [] h .broke
-  | cnt {h} : Run env .cnt h [] h .continued
+  | jump {n h} : Run env (.jump n) h [] h (.exit n)
+  | blockN {a h o h'} : Run env a h o h' .normal → Run env (.block a) h o h' .normal
+  | blockR {a h o h'} : Run env a h o h' .returned → Run env (.block a) h o h' .returned
+  | block0 {a h o h'} : Run env a h o h' (.exit 0) → Run env (.block a) h o h' .normal
+  | blockS {a h o h' n} : Run env a h o h' (.exit (n + 1)) → Run env (.block a) h o h' (.exit n)
   | seqN {a b h o₁ h₁ o₂ h₂ t} : Run env a h o₁ h₁ .normal → Run env b h₁ o₂ h₂ t → Run env (.seq a b) h (o₁ ++ o₂) h₂ t
   | seqX {a b h o₁ h₁ t} : Run env a h o₁ h₁ t → t ≠ .normal → Run env (.seq a b) h o₁ h₁ t
   | altL {a b h o h' t} : Run env a h o h' t → Run env (.alt a b) h o h' t
   | altR {a b h o h' t} : Run env b h o h' t → Run env (.alt a b) h o h' t
   | loop0 {a h} : Run env (.loop a) h [] h .normal
-  | loopS {a h o₁ h₁ o₂ h₂ t t₁} : Run env a h o₁ h₁ t₁ → (t₁ = .normal ∨ t₁ = .continued) →
+  | loopS {a h o₁ h₁ o₂ h₂ t} : Run env a h o₁ h₁ .normal →
       Run env (.loop a) h₁ o₂ h₂ t → Run env (.loop a) h (o₁ ++ o₂) h₂ t
-  | loopB {a h o₁ h₁} : Run env a h o₁ h₁ .broke → Run env (.loop a) h o₁ h₁ .normal
-  | loopR {a h o₁ h₁} : Run env a h o₁ h₁ .returned → Run env (.loop a) h o₁ h₁ .returned
+  | loopX {a h o₁ h₁ t} : Run env a h o₁ h₁ t → t ≠ .normal → Run env (.loop a) h o₁ h₁ t
   | spawn {a h o h' t} : Run env a [] o h' t → Run env (.spawn a) h o h .normal
   | call {f body h o h₁ t} : env[f]? = some body → Run env body h o h₁ t →
       Run env (.call f) h o (dropAll (dfrs body) h₁) .normal
@@ -98,18 +103,22 @@ structure Res where
   rows : List (Nat × LS) := []
   calls : List (Nat × LS) := []
   out : Option LS := none
-  brk : Option LS := none
-  cnt : Option LS := none
+  exits : List (Option LS) := []   -- exits[n]: the lockset with which `jump n` may leave (none = no such path)
 deriving Repr, Inhabited
 
-def loopOk (inv : LS) (r : Res) : Bool :=
-  (match r.out with | none => true | some o => subB inv o) &&
-  (match r.cnt with | none => true | some o => subB inv o)
+def exitAt (l : List (Option LS)) (n : Nat) : Option LS := l.getD n none
 
-/-- the loop-head invariant for a body analysis `f`: the candidate `L ∩ out(L) ∩ cnt(L)` if the body preserves it, else ∅ -/
+def meetX : List (Option LS) → List (Option LS) → List (Option LS)
+  | [], ys => ys
+  | xs, [] => xs
+  | x :: xs, y :: ys => meetO x y :: meetX xs ys
+
+def loopOk (inv : LS) (r : Res) : Bool :=
+  match r.out with | none => true | some o => subB inv o
+
+/-- the loop-head invariant for a body analysis `f`: the candidate `L ∩ out(L)` if the body preserves it, else ∅ -/
 def invOfWith (f : LS → Res) (L : LS) : LS :=
-  let r₀ := f L
-  let cand := meetL (meetL L r₀.out) r₀.cnt
+  let cand := meetL L (f L).out
   if loopOk cand (f cand) then cand else []
 
 /-- the analysis: `an relOf c L` for a command reached with (at least) the locks `L` held -/
@@ -120,29 +129,29 @@ def an (relOf : Nat → List Mutex) : Cmd → LS → Res
   | .dfr _, L => { out := some L }
   | .acc k, L => { rows := [(k, L)], out := some L }
   | .ret, _ => {}
-  | .brk, L => { brk := some L }
-  | .cnt, L => { cnt := some L }
+  | .jump n, L => { exits := List.replicate n none ++ [some L] }
   | .call f, L => { calls := [(f, L)], out := some (dropAll (relOf f) L) }
   | .spawn a, L =>
       let r := an relOf a []
       { rows := r.rows, calls := r.calls, out := some L }
+  | .block a, L =>
+      let r := an relOf a L
+      { rows := r.rows, calls := r.calls, out := meetO r.out (exitAt r.exits 0), exits := r.exits.drop 1 }
   | .seq a b, L =>
       let ra := an relOf a L
       match ra.out with
       | none => ra
       | some L₁ =>
         let rb := an relOf b L₁
-        { rows := ra.rows ++ rb.rows, calls := ra.calls ++ rb.calls, out := rb.out,
-          brk := meetO ra.brk rb.brk, cnt := meetO ra.cnt rb.cnt }
+        { rows := ra.rows ++ rb.rows, calls := ra.calls ++ rb.calls, out := rb.out, exits := meetX ra.exits rb.exits }
   | .alt a b, L =>
       let ra := an relOf a L
       let rb := an relOf b L
-      { rows := ra.rows ++ rb.rows, calls := ra.calls ++ rb.calls, out := meetO ra.out rb.out,
-        brk := meetO ra.brk rb.brk, cnt := meetO ra.cnt rb.cnt }
+      { rows := ra.rows ++ rb.rows, calls := ra.calls ++ rb.calls, out := meetO ra.out rb.out, exits := meetX ra.exits rb.exits }
   | .loop a, L =>
       let inv := invOfWith (an relOf a) L
       let r := an relOf a inv
-      { rows := r.rows, calls := r.calls, out := meetO (some inv) r.brk }
+      { rows := r.rows, calls := r.calls, out := some inv, exits := r.exits }
 
 /-! ## whole-program conditions (checked by evaluation on the generated skeletons) -/
 
@@ -154,6 +163,7 @@ def relSet (relOf : Nat → List Mutex) : Cmd → List Mutex
   | .seq a b => relSet relOf a ++ relSet relOf b
   | .alt a b => relSet relOf a ++ relSet relOf b
   | .loop a => relSet relOf a
+  | .block a => relSet relOf a
   | _ => []
 
 def getL (l : List (List Nat)) (i : Nat) : List Nat := l.getD i []
@@ -180,11 +190,12 @@ def allRows (env : List Cmd) (rel : List (List Mutex)) (entry : List LS) : List 
     | some body => (an (getL rel) body (getLS entry g)).rows
     | none => []
 
-def lookupRow (rows : List (Nat × LS)) (k : Nat) : Option LS := (rows.find? fun r => r.1 == k).map (·.2)
+/-- the real locks of a table row: tokens (annotated ordering protocols) are not locks -/
+def realLocks (tokens : List Mutex) (a : Access) : LS := a.locks.filter fun x => !tokens.contains x.m
 
-/-- a table row is justified: its real locks (tokens excluded) are held at its site according to the analysis -/
+/-- a table row is justified: at every row the analysis has for its site, its real locks are held — and there is one -/
 def justifiedB (rows : List (Nat × LS)) (tokens : List Mutex) (a : Access) : Bool :=
-  let real := a.locks.filter fun x => !tokens.contains x.m
-  real.isEmpty || (match lookupRow rows a.site with | some L => subB real L | none => false)
+  (realLocks tokens a).isEmpty ||
+    ((rows.any fun r => r.1 == a.site) && (rows.all fun r => r.1 != a.site || subB (realLocks tokens a) r.2))
 
 end KV.LockProg
